@@ -361,7 +361,14 @@ def _check(ctx, tmp):
     whomes = [("default-path", mkhome(root, "w-default", currency=data), "eur"),
               ("currency-path", mkhome(root, "w-path", config="currency-path=%s\n" % wfile), "eur"),
               ("own-base", mkhome(root, "w-base", config="base-currency=%s\n" % other, currency=data), other)]
-    with ThreadPoolExecutor(max_workers=3) as ex:
+    # the same file reached through a path with capital letters and a space (a path is data: it must be used as written)
+    import shutil as _sh
+    odd_dir = os.path.join(root, "Rates Dir", "XE-Tables")
+    os.makedirs(odd_dir)
+    odd_file = os.path.join(odd_dir, "Table-2024.CSV")
+    _sh.copy(wfile, odd_file)
+    whomes.append(("mixed-case-path", mkhome(root, "w-mixed", config="Currency-Path-Is-Not-A-Key = 1\ncurrency-path = %s\n" % odd_file), "eur"))
+    with ThreadPoolExecutor(max_workers=4) as ex:
         wouts = list(ex.map(lambda h: run_batch(h[1], wexprs, tmp, "w-" + h[0]), whomes))
     for (nm, home, want), out in zip(whomes, wouts):
         how = "table written by --scrape-currency-to, used via %s; fresh process" % nm
